@@ -1,7 +1,11 @@
 package hx
 
 import (
+	"context"
+	"fmt"
 	"net"
+
+	"git.sr.ht/~adrian-blx/psa-dhcp/lib/dhcpmsg"
 	"testing"
 	"testing/synctest"
 	"time"
@@ -71,6 +75,7 @@ func TestCfgOptions(t *testing.T) {
 					cl.IP = c.DynTo
 				}
 				c.Clients = []ClientConf{cl}
+				retainedOptions(s, c, cl.MAC, net.HardwareAddr{2, 0, 0, 0, 0xbb, 9})
 				var steps []scriptStep
 				for k, mac := range []net.HardwareAddr{cl.MAC, {2, 0, 0, 0, 0xbb, 9}} {
 					m := MsgSpec{MAC: mac, Type: 1, Xid: uint32(10 + k), Flags: Pick(r, uint16(0), 0x8000)}
@@ -95,6 +100,41 @@ func TestCfgOptions(t *testing.T) {
 					})
 					_ = first
 				})
+			}
+		}
+	}
+}
+
+// retainedOptions: the option list built for one client must not change when the list for another
+// client is built afterwards (C09 isolation, C07 exactness): handlers run concurrently and each
+// keeps its list until the reply is assembled, so a shared backing store shows as cross-talk.
+func retainedOptions(s *Stream, c *SrvConf, a, b net.HardwareAddr) {
+	ifaceSeq++
+	iface := &net.Interface{Index: ifaceSeq, Name: fmt.Sprintf("v%d", ifaceSeq), HardwareAddr: c.SelfMAC, MTU: 1500}
+	ctx, cancel := context.WithCancel(context.Background())
+	defer cancel()
+	sx, err := newServerOn(ctx, iface, c)
+	if err != nil {
+		return
+	}
+	render := func(o []dhcpmsg.DHCPOpt) string {
+		t := ""
+		for _, x := range o {
+			t += fmt.Sprintf("%d:%x|", x.Option, x.Data)
+		}
+		return t
+	}
+	for _, pair := range [][2]net.HardwareAddr{{a, b}, {b, a}, {a, a}} {
+		first := sx.VerifDhcpOptions(pair[0])
+		before := render(first)
+		second := sx.VerifDhcpOptions(pair[1])
+		_ = second
+		s.Count("retained-options")
+		if after := render(first); after != before {
+			what := "a reply carries parameters that are not the ones configured for its client (the option list built for one client changed when another client's list was built: shared storage between handlers)"
+			for _, pid := range []string{"C07", "C09"} {
+				s.Find(Finding{Property: pid, Stream: "cfgopts", Signature: "retained-options", What: what, Config: c.Line(0),
+					Ops: []string{"dhcpOptions " + pair[0].String(), "dhcpOptions " + pair[1].String()}, Expected: before, Observed: after})
 			}
 		}
 	}
